@@ -151,7 +151,9 @@ def run(res: Results, idx: Index, tier: str) -> None:
                             return True
             return False
         nested = any(_visits_nested(e) for e, _w in ext)
-        if ext and after and (empty or nested):
+        if c.lineno < min(x.lineno for x in std):
+            res.ok("R-C15c", site, key, "removal happens before the save: whatever is at the sidecar path then is stale, and the save writes what the model references", s.qualname)
+        elif ext and after and (empty or nested):
             res.ok("R-C15c", site, key, "removal happens after the save, only when no initializer of the saved proto has external_data, and " + ("only for an empty file" if empty else "the test visits nested graphs"), s.qualname)
         else:
             miss = []
@@ -164,6 +166,17 @@ def run(res: Results, idx: Index, tier: str) -> None:
             res.violation("R-C15c", site, key, "the standard export deletes the sidecar although the saved model may reference it: " + "; ".join(miss), s.qualname)
     if not std_removes:
         res.ok("R-C15c", f"{UI}:{s.node.lineno}", f"{UI}::_save_model_proto::standard-sidecar-removal", "the standard branch never deletes a sidecar", s.qualname)
+    # ---------------- R-C15e
+    res.rule("R-C15e", "the standard export removes an existing file at the sidecar path before saving (onnx appends to an existing external-data file)", floor=1)
+    res.trusted.append("onnx.external_data_helper.save_external_data opens an existing external-data file in r+b mode and appends at its end")
+    for i, sv in enumerate(std):
+        key = f"{UI}::_save_model_proto::clean-sidecar-before-save#{i}"
+        pre = [c for c in std_removes if c.lineno < sv.lineno and any(isinstance(a, ast.Name) and ("data" in a.id) for a in c.args)]
+        if pre:
+            res.ok("R-C15e", f"{UI}:{sv.lineno}", key, f"`{src(pre[0], 40)}` (line {pre[0].lineno}) clears the sidecar path before the save", s.qualname)
+        else:
+            res.violation("R-C15e", f"{UI}:{sv.lineno}", key, "nothing removes an existing sidecar before `onnx.save_model(..., save_as_external_data=True)`: onnx appends the tensors to the file a previous export to the same path "
+                          "left behind, so the sidecar grows with every export and the .onnx bytes (offsets) of the same request differ from run to run", s.qualname)
     rule_d(res, idx)
     # every branch returns the destination
     key = f"{UI}::_save_model_proto::returns-dest"
